@@ -170,34 +170,41 @@ func (fx *c16fixture) pubOf(i, bad int) []byte {
 	return fx.pub(i)
 }
 
-// c16flipKeyOf: Flipper.generateFlipEncryptionKey (flipper.go:272) re-derived: the node's flip key pair of an epoch
-func c16flipKeyOf(node *ecdsa.PrivateKey, epoch int, public bool) *ecdsa.PrivateKey {
-	seed := fmt.Sprintf("flip-private-key-for-epoch-%v", epoch)
-	if public {
-		seed = fmt.Sprintf("flip-key-for-epoch-%v", epoch)
-	}
-	h := crypto.Hash([]byte(seed))
+// c16flipKeyVariants: Flipper.generateFlipEncryptionKey (flipper.go:272) re-derived for the PUBLIC flip key of an epoch.
+// The derivation feeds the node's signature into crypto.GenerateKeyFromSeed -> ecdsa.GenerateKey, which (Go >= 1.20)
+// first calls randutil.MaybeReadByte on the reader: the same node key and epoch give one of TWO keys, chosen by a coin
+// flip at the moment the Flipper derives it.  Returned: whether some variant has a scalar with a zero top byte.
+func c16flipKeyVariants(node *ecdsa.PrivateKey, epoch int) (short bool) {
+	h := crypto.Hash([]byte(fmt.Sprintf("flip-key-for-epoch-%v", epoch)))
 	sig, _ := crypto.Sign(h[:], node)
-	k, _ := crypto.GenerateKeyFromSeed(bytes.NewReader(sig))
-	return k
+	for t := 0; t < 6; t++ {
+		k, _ := crypto.GenerateKeyFromSeed(bytes.NewReader(sig))
+		if len(k.D.Bytes()) < 32 {
+			return true
+		}
+	}
+	return false
 }
 
-var c16shortScalars [][2]int // (node key number, epoch) whose public flip key scalar has a zero most significant byte
+var c16shortScalars [][2]int // (node key number, epoch) for which the public flip key scalar can have a zero most significant byte
+var c16shortNext = 1
 
-// c16findShortScalars: about 1 of 256 (node key, epoch) pairs; found by walking deterministic node keys
+// c16findShortScalars: about 1 of 128 (node key, epoch) pairs; found by walking deterministic node keys
 func c16findShortScalars(want int) [][2]int {
-	for k := 1; len(c16shortScalars) < want && k < 20000; k++ {
-		node := c16derive("node", k)
+	for ; len(c16shortScalars) < want && c16shortNext < 20000; c16shortNext++ {
+		node := c16derive("node", c16shortNext)
 		for e := 0; e < 3; e++ {
-			if len(c16flipKeyOf(node, e, true).D.Bytes()) < 32 {
-				c16shortScalars = append(c16shortScalars, [2]int{k, e})
+			if c16flipKeyVariants(node, e) {
+				c16shortScalars = append(c16shortScalars, [2]int{c16shortNext, e})
 			}
 		}
 	}
 	return c16shortScalars
 }
 
-func c16cid(i, j int) []byte { return []byte{0x01, 0x55, byte(i >> 8), byte(i), byte(j), 0xf1} }
+func c16cid(i, j int) []byte {
+	return []byte{0x01, 0x55, byte(i >> 16), byte(i >> 8), byte(i), byte(j), 0xf1}
+}
 
 // ---------------------------------------------------------------- formatting (same as Drivers/C16.lean)
 
@@ -796,8 +803,8 @@ func c16shard(o *c16out, x *c16shardCtx) {
 		}
 		ownNode := x.seq != nil && ga >= c16nodeBase // the node's own identity: the REAL broadcast path
 		if ownNode {
-			pubFK = ecies.ImportECDSA(c16flipKeyOf(fx.key(ga), x.epoch, true))
-			privFK = ecies.ImportECDSA(c16flipKeyOf(fx.key(ga), x.epoch, false))
+			// the Flipper's own (cached for the epoch) key pair
+			pubFK, privFK = x.seq.flipper.GetFlipPublicEncryptionKey(), x.seq.flipper.GetFlipPrivateEncryptionKey()
 			if len(pubFK.D.Bytes()) < 32 {
 				o.hit("seq:own-flip-key-scalar-with-leading-zero")
 			}
@@ -1005,6 +1012,7 @@ type c16world struct {
 	appState *appstate.AppState
 	pool     *mempool.KeysPool
 	f        *ceremony.VerifC16Ceremony
+	flipper  *flip.Flipper
 	head     *types.Header
 	height   uint64
 }
@@ -1100,6 +1108,7 @@ func c16runSeq(cs c16case, withKeys bool) *c16out {
 	}
 nodeSet:
 	flipper := flip.NewFlipper(w.db, ipfs.NewMemoryIpfsProxy(), w.pool, nil, fx.ss, w.appState, w.bus)
+	w.flipper = flipper
 	krng := rand.New(rand.NewSource(cs.KSeed))
 	orng := rand.New(rand.NewSource(cs.KSeed + 1))
 	var prev []c16pid
@@ -1139,6 +1148,15 @@ nodeSet:
 			} else {
 				w.bus.Publish(&events.NewBlockEvent{Block: &types.Block{Header: w.head, Body: &types.Body{}}}) // the pool follows the head
 				w.f.CompleteEpoch()
+			}
+			// when the node's public flip key of this epoch CAN have a scalar with a zero top byte, make the Flipper derive
+			// that variant (Clear drops the cached pair, the next Get derives again)
+			for _, id := range ep.Ids {
+				if id.G >= c16nodeBase && id.F > 0 && c16flipKeyVariants(fx.key(id.G), e) {
+					for t := 0; t < 64 && len(flipper.GetFlipPublicEncryptionKey().D.Bytes()) == 32; t++ {
+						flipper.Clear()
+					}
+				}
 			}
 			w.f.StartLottery(ids, c16seedBytes(ep.Seed))
 			if w.f.Finished() {
